@@ -40,6 +40,11 @@
         other  : () | (t)   staged in another, in-progress transaction with table id t
       op = (0 mode n perm) Commit with a fault | (1 perm) Commit
          | (2 mode n perm) Discard with a fault | (3 perm) Discard
+         | (4 half victim perm) Commit while ONE SQL statement inside SetWithLog of heads/<victim>
+           fails (half 0: the reflogs insert, 1: the refs upsert; SQLite trigger below the
+           ref.Store method).  Model: SetWithLog is atomic ([run_setwithlog_fault]).  How many
+           other branches landed before the victim depends on the enumeration order: from this
+           op on, while not all branches have landed, moved and newobjs are 9 and snap is ()
         mode 0: the n-th (0-based) and all later mutating store calls fail (crash: state = prefix)
         mode 1: only the n-th mutating store call fails
         mode 2: the n-th store call of ANY kind (reads included) fails; not predicted by the
@@ -166,6 +171,20 @@ Definition run_full (p : plan) (s : state) : state * res := (apply_all (fst p) s
 (** a read fails after n writes: same state, always an error. *)
 Definition run_read_fault (n : nat) (p : plan) (s : state) : state * res :=
   (apply_all (firstn n (fst p)) s, RErr).
+
+(** a failure INSIDE SetWithLog of heads/<victim> (the refs upsert or the reflogs insert of
+    its one SQL transaction fails): the step is atomic, so nothing of it happened and the
+    operation stops there = the writes before the first [WSetWithLog victim] happened.
+    (If the plan has no such write the operation runs to its end.)  An instance of
+    [run_upto], hence covered by the forall-n theorems. *)
+Fixpoint swl_index (b : branch) (ws : list write) : nat :=
+  match ws with
+  | [] => 0%nat
+  | WSetWithLog b' _ _ :: r => if b' =? b then 0%nat else S (swl_index b r)
+  | _ :: r => S (swl_index b r)
+  end.
+Definition run_setwithlog_fault (victim : branch) (p : plan) (s : state) : state * res :=
+  run_upto (swl_index victim (fst p)) p s.
 
 (** ** transaction.Commit *)
 (* GetTransactionLogs(id)[heads/b].NewOID : newest entry of b's reflog carrying the txid *)
@@ -468,48 +487,53 @@ Definition newobj_count (s0 s : state) : nat :=
 Definition t_res (masked : bool) (r : res) : tree :=
   if masked then Leaf 3 else match r with ROk => Leaf 0 | RErr => Leaf 1 end.
 
-Definition observe (k : nat) (s0 s : state) (masked amb : bool) (r : res) : tree :=
+Definition observe (k : nat) (s0 s : state) (masked amb tamb : bool) (r : res) : tree :=
   let mv := moved_count k s0 s in
   let nst := length (staged s0 ID_ME) in
   let sc := length (staged s ID_ME) in
+  let part := negb (Nat.eqb mv nst) in
   Node [ t_res masked r;
-         Node [t_nat mv;
-               if (amb && negb (Nat.eqb mv nst))%bool then Leaf 9 else t_nat (newobj_count s0 s);
+         Node [if (tamb && part)%bool then Leaf 9 else t_nat mv;
+               if ((amb || tamb) && part)%bool then Leaf 9 else t_nat (newobj_count s0 s);
                t_status (txs s ID_ME); t_nat sc];
-         if ((Nat.eqb mv 0 || Nat.eqb mv nst) && (Nat.eqb sc 0 || Nat.eqb sc nst))%bool
+         if ((Nat.eqb mv 0 && negb tamb || Nat.eqb mv nst) && (Nat.eqb sc 0 || Nat.eqb sc nst))%bool
          then Node [snapshot k s] else Node [] ].
 
 Inductive sop :=
 | SCommitF (mode : N) (n : nat) (perm : list N) | SCommit (perm : list N)
-| SDiscardF (mode : N) (n : nat) (perm : list N) | SDiscard (perm : list N).
+| SDiscardF (mode : N) (n : nat) (perm : list N) | SDiscard (perm : list N)
+| SCommitT (victim : branch) (perm : list N).
 Definition d_sop (t : tree) : sop :=
   match N.to_nat (d_N (d_nth 0 t)) with
   | 0%nat => SCommitF (d_N (d_nth 1 t)) (d_nat (d_nth 2 t)) (d_list d_N (d_nth 3 t))
   | 1%nat => SCommit (d_list d_N (d_nth 1 t))
   | 2%nat => SDiscardF (d_N (d_nth 1 t)) (d_nat (d_nth 2 t)) (d_list d_N (d_nth 3 t))
-  | _ => SDiscard (d_list d_N (d_nth 1 t))
+  | 3%nat => SDiscard (d_list d_N (d_nth 1 t))
+  | _ => SCommitT (d_N (d_nth 2 t)) (d_list d_N (d_nth 3 t))
   end.
 
-Fixpoint run_script (k : nat) (s0 s : state) (masked : bool) (nf : nat) (ops : list sop) : list tree :=
+Fixpoint run_script (k : nat) (s0 s : state) (masked tamb : bool) (nf : nat) (ops : list sop) : list tree :=
   match ops with
   | [] => []
   | o :: ops' =>
       let mode2 := match o with SCommitF m _ _ | SDiscardF m _ _ => m =? 2 | _ => false end in
-      let nf := match o with SCommitF _ _ _ => S nf | _ => nf end in
+      let nf := match o with SCommitF _ _ _ | SCommitT _ _ => S nf | _ => nf end in
+      let tamb := match o with SCommitT _ _ => true | _ => tamb end in
       let p := match o with
-               | SCommitF _ _ perm | SCommit perm => tx_commit (ord_by perm) ID_ME s
+               | SCommitF _ _ perm | SCommit perm | SCommitT _ perm => tx_commit (ord_by perm) ID_ME s
                | SDiscardF _ _ perm | SDiscard perm => tx_discard (ord_by perm) ID_ME s
                end in
       if mode2 then
         (* a failing read: not predicted; the model continues from "nothing happened",
            which by C14_all_or_completable gives the same state after the next clean run *)
-        Node [Leaf 3] :: run_script k s0 s true nf ops'
+        Node [Leaf 3] :: run_script k s0 s true tamb nf ops'
       else
         let '(s', r) := match o with
                         | SCommitF _ n _ | SDiscardF _ n _ => run_upto n p s
+                        | SCommitT v _ => run_setwithlog_fault v p s
                         | _ => run_full p s
                         end in
-        observe k s0 s' masked (2 <=? nf)%nat r :: run_script k s0 s' masked nf ops'
+        observe k s0 s' masked (2 <=? nf)%nat tamb r :: run_script k s0 s' masked tamb nf ops'
   end.
 
 Definition run_C14 (c : tree) : tree :=
@@ -517,4 +541,4 @@ Definition run_C14 (c : tree) : tree :=
   let bs := d_list d_bspec (d_nth 1 c) in
   let ops := d_list d_sop (d_nth 2 c) in
   let s0 := setup flags bs in
-  Node (run_script (length bs) s0 s0 false 0 ops).
+  Node (run_script (length bs) s0 s0 false false 0 ops).
